@@ -348,6 +348,82 @@ def reader_during_transaction_scenario(ctx):
         w.close()
 
 
+def helper_in_transaction_scenario(ctx):
+    """The provider's own helpers that are written to work inside an open transaction (`mdib.xtra.
+    mk_state_containers_for_all_descriptors`): descriptors without a state are in the MDIB (added to the description table
+    directly, as when an MDIB is assembled by hand); a descriptor transaction touches one of them and calls the helper.
+    If the body raises afterwards nothing may remain; if it commits, the states are part of the transaction result."""
+    from sdc11073.xml_types import pm_qnames, pm_types
+    p = lb.Provider(mdib_path=c02.MDIBS[1], start=False, role_providers=False)
+    m = p.mdib
+    w = tx.World(p, ctx.subrng('helper'))
+    try:
+        def node(qn):
+            found = m.descriptions.NODETYPE.get(qn)
+            return found[0] if found else None
+        plan = [(pm_qnames.SetStringOperationDescriptor, node(pm_qnames.ScoDescriptor)),
+                (pm_qnames.NumericMetricDescriptor, node(pm_qnames.ChannelDescriptor)),
+                (pm_qnames.AlertConditionDescriptor, node(pm_qnames.AlertSystemDescriptor))]
+        handles = []
+        for i, (qn, parent) in enumerate(plan):
+            if parent is None:
+                continue
+            cls = m.data_model.get_descriptor_container_class(qn)
+            d = cls(f'helper_stateless_{i}', parent.Handle)
+            d.Type = pm_types.CodedValue(str(88000 + i))
+            if qn == pm_qnames.SetStringOperationDescriptor:
+                d.OperationTarget = w.states_of_kind('metric')[0]
+            if qn == pm_qnames.NumericMetricDescriptor:
+                d.Unit = pm_types.CodedValue('262656')
+                d.Resolution = __import__('decimal').Decimal(1)
+            d.set_source_mds(parent.source_mds)
+            m.descriptions.add_object(d)
+            handles.append(d.Handle)
+        if not handles:
+            ctx.count('helper-scenario-skipped')
+            return
+        from sdc11073.exceptions import ApiUsageError
+        for variant in ('abort', 'untouched', 'commit'):
+            abort = variant != 'commit'
+            before = full_snapshot(w)
+            p.take_wire()
+            raised = None
+            try:
+                with m.descriptor_transaction() as mgr:
+                    # the helper hands every new state to the transaction, which takes only states of descriptors it holds;
+                    # in the variant 'untouched' one descriptor is not in the transaction: the real code refuses (ApiUsageError)
+                    for h in (handles[:-1] if variant == 'untouched' and len(handles) > 1 else handles):
+                        mgr.get_descriptor(h).SafetyClassification = pm_types.SafetyClassification.MED_A
+                    m.xtra.mk_state_containers_for_all_descriptors()
+                    if abort:
+                        raise tx.AppAbort('application error after the helper')
+            except (tx.AppAbort, ApiUsageError) as ex:
+                raised = ex
+            after = full_snapshot(w)
+            case = {'helper_in_transaction': 'mk_state_containers_for_all_descriptors', 'variant': variant, 'handles': handles}
+            if abort:
+                if raised is None:
+                    ctx.fail('exception-in-transaction-body-swallowed', 'the exception of the body did not reach the caller', case)
+                if after != before:
+                    ctx.fail('aborted-transaction-changed-mdib', f'helper inside an aborted transaction: {lb.diff_snapshots(before, after)[:3]}', case)
+            else:
+                res = m.transaction
+                got = sorted(s.DescriptorHandle for s in res.all_states()) if res is not None else []
+                missing = [h for h in handles if m.states.descriptor_handle.get_one(h, allow_none=True) is None]
+                if missing:
+                    ctx.fail('committed-transaction-applied-partly', f'no state for {missing} after the committed transaction', case)
+                if [h for h in handles if h not in got]:
+                    ctx.fail('committed-transaction-applied-partly',
+                             f'states created inside the transaction are not in its result: result has {got}, created {handles}', case)
+                probs = index_problems(w)
+                if probs:
+                    ctx.fail('lookup-inconsistent-after-commit', '; '.join(probs[:3]), case)
+            ctx.case(case, nontrivial=True)
+            ctx.count('helper-scenarios')
+    finally:
+        w.close()
+
+
 def send_failure_scenario(ctx):
     """The commit itself fails while the reports are sent (the committed content is not schema valid and a subscriber
     exists, so serialisation of the notification raises ValidationError inside the commit): the statement demands that the
@@ -386,6 +462,7 @@ def run(ctx):
     precommit_veto_scenario(ctx)
     send_failure_scenario(ctx)
     reader_during_transaction_scenario(ctx)
+    helper_in_transaction_scenario(ctx)
 
 
 def search(ctx):
